@@ -37,6 +37,9 @@ CLAIMED = {
  "C02": ("bounds/size/divisor obligations over the decode fragment decided by linear integer arithmetic (Fourier–Motzkin) on SSA values, with pre/postconditions, loop-phi invariants and slab invariants inferred inductively (Houdini); grammar-rejection facts proved at every success exit; recursion-cycle depth-parameter analysis; entry-point argument comparison",
          "Decides that every index, slice, binary.BigEndian read, divisor and allocation size reachable from Decode/DecodeOwned is in range / bounded by the input length for every input (so no bounds-check panic and no allocation driven by a claimed length), that every success exit of the decoders has rejected zero length-byte count, truncated header/payload, non-multiple payloads, short localized strings, undefined codes and over-deep nesting, that the recursion is depth-bounded, and that the copying and owning entry points run the same decoder. Does not decide the decoded values or re-encode equality.",
          "§4 C02"),
+ "C04": ("bounds obligations over the frame decoders and the receive path decided by linear integer arithmetic with inductively inferred contracts (including success-conditional postconditions such as 'a frame read without error is ≥ 10 bytes'); acceptance facts proved at every success exit with boundary-reachability queries; validate-before-allocate facts at the frame allocation; path-exact iteration table of readN (deadline policy, in-frame flag) and of recvLoop; reachability/who-may-call analysis of the lazy body decode",
+         "Decides that no byte string or segmentation can make frame decoding or dispatch panic on a bounds check, that the three decode entry points and decodeOwnedFrame accept exactly 10 ≤ length ≤ cap / exact length / PType 0 / defined SType (boundaries included), that the receive path validates the length field before it sizes an allocation, that before every Read the deadline is now()+T8 iff a byte of the current frame has been read and the flag is shared across both reads of a frame, that a read error ends the loop without dispatch, and that the body is decoded lazily once under a sync.Once shared by all copies. Timing and kernel semantics are not decided.",
+         "§4 C04"),
  "C14": ("bounds/size obligations over the parse fragment decided by linear integer arithmetic on SSA values with inductively inferred contracts and Parser field invariants (data = input[pos:], len = len(input), 0 ≤ pos ≤ len); recursion-cycle depth-parameter analysis; provenance of every ParseError offset and decision table of the line/column scan; who-may-write enumeration of package variables and Parser/Encoder fields",
          "Decides that every index/slice of the scan window, every forward/backward step and every allocation size (make, Builder.Grow) reachable from the Parse entry points is in range / bounded by the unread input for every text, that list nesting is depth-bounded before recursion, that every syntax error's offset is a parser position clamped to len(input) with line/column derived from exactly that prefix, and that parser/encoder instances share no mutable state. Does not decide running time or messages' values.",
          "§4 C14"),
